@@ -9,7 +9,7 @@ COQ_IMPORTS = 'From VRP Require Import Base.Tac Model.Core Spec.Feasible Model.E
 MODEL_TARGETS = ['theories/Model/Eval.vo']
 MODEL_NEEDS_IMPL = True
 SHARD = 60
-SUBSTREAMS = ['c20_wide']
+SUBSTREAMS = ['c20_wide', 'c20_sel']
 SIZES = {'quick': 700, 'thorough': 10000, 'search': 5000}
 RULE = ('cases: a target vehicle with a tour of 0-5 activities (empty tour = route taken from the registry), 0-1 other routes, '
         '0-2 ignored jobs and 0-2 other required jobs, goal layers [unassigned, tours, cost], [unassigned, tours, distance], '
@@ -253,10 +253,25 @@ MANIFEST_TEXT = ('Machine-checked proof (Coq): over the executable model of the 
                  'allowed permutations, proved to terminate): a success carries exactly the activities whose estimates were summed, each a declared '
                  'place / window of its sub-job accepted by the constraint evaluation, hence quote = realised change for the returned activities; '
                  'the real result (quote vector, every activity: index, place index, location, duration, window), the tour after the real insertion '
-                 'and the realised change are compared exactly with the modelled search on fleets built through the core API with driver costs.')
+                 'and the realised change are compared exactly with the modelled search on fleets built through the core API with driver costs. '
+                 'Goal level (sub-stream c20_sel, Model/GoalSel.v): estimate and fitness of every additive-looking objective feature the default pragmatic goal can '
+                 'contain (minimize-unassigned with any job estimator incl. the pragmatic break / cluster weights, min / max tours, arrival time, value with '
+                 'job-only or actor-dependent read function, distance, duration, cost with driver and per-vehicle rates), Goal::estimate per layer order with '
+                 'Sum / WeightedSum groups, the exhaustive evaluator over routes x jobs with vector costs (all exits of eval_job_insertion_in_route, '
+                 'best_known_cost, evaluate_all under every schedule). Proved: the vector of realised changes of the layer values = the quoted vector for every '
+                 'goal over unassigned / tours / value / distance (and cost without waiting), up to a candidate-independent shift (finding C20-F1); the CONSEQUENCE '
+                 'clause: the selected insertion minimises the realised lexicographic change over ALL enumerated (job, tour, position, place, window) candidates - '
+                 'unconditionally for one (route, job) pair, for the whole grid under C15\'s lower-bound hypothesis (metric matrix for the additive objectives), '
+                 'refuted witness without it (prune-by-route-cost, C15-F1 = C20-F2); the cost clause is tight (witness with waiting), the quote is a LOWER bound '
+                 'of the realised change under waiting and exact for a new tour / the last leg of an open tour (not with a driver paid for waiting: witness); '
+                 'duration and arrival-time objectives are not additive (witnesses); time-dependent routing breaks the distance equality (witness over the C16 '
+                 'provider model). Tied to /repo on every run by brute force: every accepted candidate is enumerated with the real goal.evaluate / goal.estimate and '
+                 'carried out through a real recreate step; enumeration, cost vectors, selection and every fitness vector are compared with the model; the goal '
+                 'built by the real pragmatic reader (break weights, value read function, multi-objective sum / weighted-sum) is compared on route level.')
 MANIFEST_NOTE = ('Trusted: Coq kernel+vm_compute; harness/generators. Modelled not verified: time-dependent routing, work-balance / tour-compactness / '
                  'fast-service objectives (not additive; outside the statement); parent stream: the result of eval_multi is replayed as a certificate, sub-stream c20_wide: '
                  'the search itself is modelled (LegSelection::Exhaustive, BestResultSelector, InsertionPosition::Any, one target route with alternative = plain failure; '
                  'stochastic leg sampling, noise selectors and the comparison with a previous success of another route are not modelled). '
-                 'Known finding: unassigned objective counts ignored jobs only while the solution has no routes.')
+                 'Known findings: unassigned objective counts ignored jobs only while the solution has no routes (C20-F1); the consequence clause fails under the '
+                 'route-cost prune of eval_job_insertion_in_route when an activity-level estimate is negative (C20-F2 = C15-F1).')
 MANIFEST_TECHNIQUE = 'Coq proof (quote = objective delta, induction over tours) + vm_compute differential correspondence'
